@@ -7,6 +7,6 @@ import e2e_common as E
 def run(ctx):
     # design level: the sender-side flow-control algorithm (transcribed, with the F3 repair) keeps every limit
     ctx.mc("MC_SendFlow")
-    traces = ctx.e2e(E.plan(ctx, [("tiny", 10), ("reset", 8), ("lossy", 6), ("clean", 3)]))
+    traces = ctx.e2e(E.plan(ctx, [("tiny", 10), ("many_streams", 8), ("reset", 6), ("late_reset", 6), ("lossy", 4), ("clean", 2)]))
     ctx.validate_families(traces, "Trace_EndpointTx", E.TX_KINDS)
     ctx.assume("credit 'received' = MAX_DATA / MAX_STREAM_DATA / MAX_STREAMS frames seen by the rx interceptor (authenticated, about to be processed) plus the peer's configured initial limits")
